@@ -65,7 +65,7 @@ int poll_set_new_evt(poll_priv_t *priv, ev_src_t *tmp, const enum op_type flag) 
          * Automatically close internally used FDs 
          * for special internal fds 
          */
-        if (tmp->type > M_SRC_TYPE_FD) {
+        if (tmp->type > M_SRC_TYPE_FD && fd != -1) {
             close(fd);
             /* 
              * Reset to -1. Note that fd_src has same
